@@ -1,6 +1,6 @@
 #!/bin/bash
 # seedcheck.sh <seed-worktree> <seed-id> <PROP> [more props]: confirm a seeded change and run our checks against it
-# - unmodified + demo: demo passes;  patched: existing 40 tests pass and the demo fails;  /repo + patch: ./check PROP
+# - unmodified + demo: demo passes;  patched: existing 40 tests pass and the demo fails;  scratch copy of /repo + patch: ./check PROP
 set -u
 SRC=$(readlink -f "$1"); ID=$2; shift 2; PROPS="$@"
 OUT=/verif/seeded/$ID; mkdir -p $OUT
@@ -24,20 +24,21 @@ echo "patched doctests: $DOC"
 echo "failed tests    : $FAILED"
 RES=""
 SCRATCH_OUT=$(mktemp -d /tmp/seedchk-out.XXXXXX)  # evidence / replays of runs against the patched tree must not overwrite the real ones
-git -C /repo apply $OUT/patch.diff || { echo "patch does not apply to /repo"; exit 3; }
+W2=$(mktemp -d /tmp/seedchk-repo.XXXXXX); mkdir -p $W2/repo $W2/build   # our checks run against a scratch copy of /repo's HEAD + the patch: /repo itself is never touched
+git -C /repo archive HEAD | tar -x -C $W2/repo
+(cd $W2/repo && patch -p1 -s < $OUT/patch.diff) || { echo "patch does not apply to /repo's HEAD"; rm -rf $W2 $SCRATCH_OUT; exit 3; }
 for P in $PROPS; do
-  O=$(cd /verif && VERIF_OUT=$SCRATCH_OUT ./check $P quick 2>&1); RC=$?
+  O=$(cd /verif && VERIF_REPO=$W2/repo VERIF_BUILD=$W2/build VERIF_OUT=$SCRATCH_OUT ./check $P quick 2>&1); RC=$?
   echo "--- ./check $P -> rc=$RC"; echo "$O" | grep -E "VIOLATION|UNDECIDED|OK |failed obligation" | head -8
   RES="$RES $P:rc=$RC"
 done
-git -C /repo checkout -- .
-rm -rf $SCRATCH_OUT
+rm -rf $SCRATCH_OUT $W2
 python3 - "$ID" "$A" "$B" "$DOC" "$FAILED" "$RES" "$PROPS" <<'P'
 import json,sys,os
 ID,A,B,DOC,FAILED,RES,PROPS=sys.argv[1:8]
 p='/verif/seeded/%s/meta.json'%ID
 m=json.load(open(p)) if os.path.exists(p) else {}
 m.update({"id":ID,"breaks_property":PROPS.split()[0],"confirmed":{"unmodified_plus_demo":A,"patched_lib_tests":B,"patched_doctests":DOC,"failing_tests_with_patch":FAILED.split()},
- "our_checks":RES.strip().split(),"ran":"tool/seedcheck.sh (scratch copy of /repo + demo wiring; patch applied to /repo only for the duration of ./check, then reverted)"})
+ "our_checks":RES.strip().split(),"ran":"tool/seedcheck.sh (scratch copy of /repo + demo wiring; our checks run against a second scratch copy of /repo's HEAD with the patch applied: VERIF_REPO)"})
 json.dump(m,open(p,'w'),indent=1)
 P
